@@ -129,10 +129,16 @@ AllTargets    == [i \in DOMAIN rcpts |-> rcpts[i].mbox]
 (* [action |-> "replace", mailboxes, msg] / [action |-> "replace-keep", msg]. *)
 (* msg is the message as the                                                *)
 (* store must show it.                                                      *)
+Targets(d) == CASE d.hook.action = "replace"      -> d.hook.mailboxes
+                 [] d.hook.action = "replace-keep" -> AllTargets
+                 [] OTHER                          -> PolicyTargets
+(* d.fails: the set of mailboxes for which the store refuses the message    *)
+(* (fault): then the transaction is refused and nothing at all is stored    *)
+StoreFails(d) == \E i \in DOMAIN Targets(d) : Targets(d)[i] \in d.fails
 Body(msg, d) ==
     /\ st = "DATA"
     /\ st' = "READY" /\ ClearEnvelope
-    /\ IF d.parse /\ d.fits
+    /\ IF d.parse /\ d.fits /\ ~StoreFails(d)
        THEN /\ boxes' = CASE d.hook.action = "replace"      -> DeliverTo(boxes, d.hook.mailboxes, d.hook.msg)
                           [] d.hook.action = "replace-keep" -> DeliverTo(boxes, AllTargets, d.hook.msg)
                           [] OTHER                          -> DeliverTo(boxes, PolicyTargets, msg)
